@@ -94,7 +94,7 @@ def gen_pack13(rng, world):
     if world["tracked"] and rng.random() < 0.4:
         pk["inferral"].append({"t": "DropDeadStatistic", "two_way": rng.random() < 0.75})
         pk["inferral"].append({"t": "MergeDuplicateStatistics", "two_way": True})
-    if rng.random() < 0.3:
+    if rng.random() < 0.3 and len(world["alphabet"]) >= 2:
         n = len(world["alphabet"])
         perm = list(range(n))
         while perm == list(range(n)):
